@@ -189,7 +189,7 @@ def run(repo: Repo, chk: Check) -> None:
     chk.set_clause('C17.2')
     PT = f'{M}.types.pair.PairType'
     nvar = 0
-    for n in (3, 4, 5):
+    for n in ((3, 4, 5, 6) if chk.tier == 'thorough' else (3, 4, 5)):
         ref: Dict[str, Any] = {}
         ref_name = ''
         for name, root in comb_variants(n):
